@@ -662,6 +662,64 @@ pub fn c20_check_one(rep: &mut Report, pats: &[Vec<u8>], cfg: &Cfg, shape: &str)
     let _ = mm;
 }
 
+/// The convenience constructors must behave like the default builders, and the
+/// packed builder must decline (not panic) beyond its documented limits.
+pub fn c20_convenience(rep: &mut Report, pats: &[Vec<u8>]) {
+    use aho_corasick::{dfa, nfa, packed, AhoCorasick};
+    let cj = || J::obj().with("patterns", if pats.len() <= 300 { pats_json(pats) } else { J::s("(many)") }).with("patterns_count", J::i(pats.len())).with("what", J::s("convenience"));
+    let r = guard(|| -> Result<(), String> {
+        let a = AhoCorasick::new(pats).map_err(|e| format!("AhoCorasick::new: {}", e))?;
+        let b = AhoCorasick::builder().build(pats).map_err(|e| format!("builder: {}", e))?;
+        if (a.patterns_len(), a.kind(), a.match_kind(), a.start_kind(), a.memory_usage() > 0 || pats.is_empty())
+            != (b.patterns_len(), b.kind(), b.match_kind(), b.start_kind(), b.memory_usage() > 0 || pats.is_empty())
+        {
+            return Err("AhoCorasick::new differs from AhoCorasick::builder().build".into());
+        }
+        if a.patterns_len() != pats.len() {
+            return Err(format!("AhoCorasick::new(..).patterns_len() = {}", a.patterns_len()));
+        }
+        let n = nfa::noncontiguous::NFA::new(pats).map_err(|e| format!("noncontiguous::NFA::new: {}", e))?;
+        let c = nfa::contiguous::NFA::new(pats).map_err(|e| format!("contiguous::NFA::new: {}", e))?;
+        let d = dfa::DFA::new(pats).map_err(|e| format!("DFA::new: {}", e))?;
+        let n2 = nfa::noncontiguous::NFA::builder().build(pats).map_err(|e| e.to_string())?;
+        let c2 = nfa::contiguous::NFA::builder().build(pats).map_err(|e| e.to_string())?;
+        let d2 = dfa::DFA::builder().build(pats).map_err(|e| e.to_string())?;
+        for (what, x, y) in [
+            ("noncontiguous", n.patterns_len(), n2.patterns_len()),
+            ("contiguous", c.patterns_len(), c2.patterns_len()),
+            ("dfa", d.patterns_len(), d2.patterns_len()),
+        ] {
+            if x != y || x != pats.len() {
+                return Err(format!("{}::new patterns_len {} vs builder {} vs input {}", what, x, y, pats.len()));
+            }
+        }
+        // packed: Searcher::new == Builder::new().extend().build(); None for no
+        // patterns, an empty pattern, or more than 128 patterns - never a panic
+        let p1 = packed::Searcher::new(pats.iter());
+        let p2 = packed::Builder::new().extend(pats.iter()).build();
+        let p3 = packed::Config::default().builder().extend(pats.iter()).build();
+        let must_be_none = pats.is_empty() || pats.iter().any(|p| p.is_empty()) || pats.len() > 128;
+        if p1.is_some() != p2.is_some() || p2.is_some() != p3.is_some() {
+            return Err("packed::Searcher::new / Builder::new / Config::default disagree on buildability".into());
+        }
+        if must_be_none && p1.is_some() {
+            return Err("packed searcher built for an unsupported collection".into());
+        }
+        if let Some(p) = &p1 {
+            let _ = p.match_kind();
+            let _ = p.memory_usage();
+        }
+        Ok(())
+    });
+    rep.eval();
+    rep.tally("convenience_constructor_sets");
+    match r {
+        Err(p) => rep.violation("convenience:panic", format!("a convenience constructor panicked: {}", p), cj()),
+        Ok(Err(e)) => rep.violation("convenience:mismatch", e, cj()),
+        Ok(Ok(())) => {}
+    }
+}
+
 pub fn run_c20(ctx: &Ctx, rep: &mut Report) {
     let n = ctx.tier.pick(12, 140, 5000);
     let mut root = Rng::new(ctx.seed).fork(0xC20 + ctx.shard as u64);
@@ -669,6 +727,9 @@ pub fn run_c20(ctx: &Ctx, rep: &mut Report) {
         let mut rng = root.fork(i as u64);
         let (pats, shape) = shaped_collection(&mut rng, ctx.tier, i + ctx.shard);
         let total: usize = pats.iter().map(|p| p.len()).sum();
+        if total <= 5000 {
+            c20_convenience(rep, &pats);
+        }
         let ncfg = if total > 5000 { 4 } else { 10 };
         for _ in 0..ncfg {
             let kind = *rng.pick(&Kind::ALL);
@@ -693,6 +754,10 @@ pub fn replay_c20(case: &J, rep: &mut Report) -> Result<(), String> {
         return Err("this witness has too many patterns to be stored; re-run the check with the same seed".into());
     }
     let pats = pats_from_json(pj)?;
+    if case.get("what").and_then(|v| v.as_str()) == Some("convenience") {
+        c20_convenience(rep, &pats);
+        return Ok(());
+    }
     let cfg = Cfg::from_json(case.get("cfg").ok_or("cfg")?)?;
     c20_check_one(rep, &pats, &cfg, "replay");
     let _ = unhex;
